@@ -221,7 +221,7 @@ def plan(tier):
     return [
         Task("grid", t_grid, shards=5 if q else 13),
         Task("short", t_short),
-        Task("roundtrip", t_hyp(_case_rt, check_roundtrip, "roundtrip"), shards=2 if q else 16, n=2500 if q else 60000),
-        Task("differential", t_hyp(_wellformed(), check_differential, "differential"), shards=1 if q else 16, n=3000 if q else 40000),
-        Task("malformed", t_hyp(_malformed(), check_malformed, "malformed"), shards=2 if q else 16, n=2500 if q else 40000),
+        Task("roundtrip", t_hyp(_case_rt, check_roundtrip, "roundtrip"), shards=2 if q else 16, n=2500 if q else 30000),
+        Task("differential", t_hyp(_wellformed(), check_differential, "differential"), shards=1 if q else 16, n=3000 if q else 20000),
+        Task("malformed", t_hyp(_malformed(), check_malformed, "malformed"), shards=2 if q else 16, n=2500 if q else 20000),
     ]
